@@ -475,6 +475,16 @@ def run(F, R, config=None):
     from . import c07
     K.borrow_rule(R, lambda sub: c07.r5_r6(F, sub), "C09-R9", "the step-size search that is re-run at the first transformation change is the mirrored doubling / halving "
                   "search and both directions restart the estimator from the step size it found (C07-R5 / R6 analysis)", only_rules={"C07-R5", "C07-R6"})
+    # "a window switch forces an update from the new foreground": adapt() itself must then update whenever it has three draws (C08-R2, converse clause)
+    from . import c08, c02
+    K.borrow_rule(R, lambda sub: c08.r2(F, sub), "C09-R10", "an update that is due happens: MassMatrixAdaptStrategy::adapt returns without touching the transformation only on "
+                  "the `current_count() < 3` edge - no memo of `nothing new since the last update` survives a window switch (C08-R2 analysis)", only_rules={"C08-R2"},
+                  only_keys=lambda k: "update-when-due" in k)
+    # "divergent draws with fewer than five steps are not fed to the estimators": the collector measures that by |index_in_trajectory|, which
+    # therefore has to restart at 0 with every trajectory - resampled momentum or not (C02-R7 analysis of initialize_trajectory)
+    K.borrow_rule(R, lambda sub: c02.r7(F, sub), "C09-R11", "every trajectory starts at index 0: initialize_trajectory resets index_in_trajectory on every path, also when the "
+                  "momentum is carried over (MCLMC), so the collector's `|index| > 4` test of a divergent draw counts the steps of this draw only (C02-R7 analysis)",
+                  only_rules={"C02-R7"}, only_keys=lambda k: "initial-energy" in k)
     R.info("C09", "final window (only the step size adapts, symmetric statistic) is also decided by C06-R4 / C07-R4")
     R.assume("window arithmetic (off-by-one in counts) is a value question and not decided")
 
